@@ -111,11 +111,11 @@ func RunConvs(t *testing.T, convs []Conv, o RunOpts) (outs []*ConvOut, tap []Ev,
 						var err error
 						switch op.Op {
 						case "sethdr":
-							err = grpc.SetHeader(ctx, MDOf(op.MD))
+							err = grpc.SetHeader(ctx, MDOfOp(op))
 						case "sendhdr":
-							err = grpc.SendHeader(ctx, MDOf(op.MD))
+							err = grpc.SendHeader(ctx, MDOfOp(op))
 						case "settrl":
-							err = grpc.SetTrailer(ctx, MDOf(op.MD))
+							err = grpc.SetTrailer(ctx, MDOfOp(op))
 						}
 						if err != nil {
 							umu.Lock()
